@@ -106,7 +106,7 @@ func PanicKnown(id string, k bool) { kpID, kpCond = id, k }
 func Reach(tag string)             { res.Reached = append(res.Reached, tag) }
 func Observe(n string, v uint64)   { res.Observed[n] = v }
 func SetUnwind(k int, violation bool) {}
-func HavocLoop(fn string, on bool)  {}
+func HavocLoop(fn string, v string) {}
 func HavocUsed(fn string) bool      { return false }
 func UF32(n string, data []byte) uint32 {
 	panic(abortT{"UF32 has no native meaning"})
